@@ -393,6 +393,33 @@ func lenClass(n int) string {
 	return ">=65542"
 }
 
+// acceptImpliesCRC: whatever byte string a WithCRC entry point accepts ends with the CRC of the rest. Fed with frames the
+// encoders emitted, cut short by one and by two bytes (a frame that lost its trailer) and extended by one byte.
+func acceptImpliesCRC(c *Case, r *mon.Rec, what string, fr []byte, isResp bool) {
+	for _, in := range [][]byte{fr[:len(fr)-1], fr[:len(fr)-2], append(append([]byte{}, fr...), fr[0])} {
+		if len(in) < 3 {
+			continue
+		}
+		var err error
+		if pn, _ := mon.Catch(func() {
+			if isResp {
+				_, err = packet.ParseRTUResponseWithCRC(append([]byte{}, in...))
+			} else {
+				_, err = packet.ParseRTURequestWithCRC(append([]byte{}, in...))
+			}
+		}); pn {
+			continue // C10's business
+		}
+		r.Eval(1)
+		var exc *packet.ErrorResponseRTU
+		accepted := err == nil || (isResp && errors.As(err, &exc))
+		w := specref.CRC(in[:len(in)-2])
+		if accepted && (in[len(in)-2] != byte(w) || in[len(in)-1] != byte(w>>8)) {
+			r.Violate(c, "withcrc-accepts-bad", mon.Attrs{"resp": isResp, "how": "length-changed"}, fmt.Sprintf("%s: % x (the emitted frame with %d bytes cut off / added) accepted although its last two bytes are not the CRC of the rest", what, in, len(fr)-len(in)))
+		}
+	}
+}
+
 func checkTrailer(c *Case, r *mon.Rec, what string, fr []byte) {
 	r.Eval(1)
 	if len(fr) < 4 {
@@ -415,6 +442,7 @@ func runFrames(c *Case, r *mon.Rec) {
 		if err == nil {
 			fr := req.Bytes()
 			checkTrailer(c, r, fmt.Sprintf("request-fc%d", fc), fr)
+			acceptImpliesCRC(c, r, fmt.Sprintf("request-fc%d", fc), fr, false)
 			r.Distinct(mon.Mix(3, uint64(fc), uint64(len(fr))))
 		}
 		// response encoders (struct literals, as a server built on the library would fill them)
@@ -422,6 +450,7 @@ func runFrames(c *Case, r *mon.Rec) {
 		if resp := LibResponseRTU(p); resp != nil {
 			fr := resp.Bytes()
 			checkTrailer(c, r, fmt.Sprintf("response-fc%d", fc), fr)
+			acceptImpliesCRC(c, r, fmt.Sprintf("response-fc%d", fc), fr, true)
 			r.Distinct(mon.Mix(4, uint64(fc), uint64(len(fr))))
 			if i == 0 {
 				r.Sample(map[string]any{"kind": "frames", "fc": fc, "response_frame_len": len(fr)})
